@@ -276,10 +276,12 @@ class LoopCut:
     """inv(I) -> [(name, bool | z3 Bool)] evaluated on the current state; havoc(I) assigns the loop-modified
     state its arbitrary-iteration value (ints are havocked automatically)."""
 
-    def __init__(self, inv=None, havoc=None, ptrs=None, arrays=(), dead=(), cursors=None, note=""):
+    def __init__(self, inv=None, havoc=None, ptrs=None, arrays=(), dead=(), cursors=None, lemmas=None, note=""):
         self.inv, self.havoc, self.note = inv or (lambda I: []), havoc, note
         self.ptrs = ptrs or {}          # name -> fn(I) -> PV : value of a loop-carried pointer as a function of the state
         self.arrays = tuple(arrays)     # local arrays whose content the loop rewrites (havocked)
+        self.lemmas = lemmas            # fn(I) -> [z3 Bool]: instances of the defining axioms of ghost functions, assumed at
+                                        # the loop head and again before the invariant is re-checked
         self.cursors = cursors or {}    # name -> (make(I) -> PV, holds(I, PV) -> bool): list cursors; invariant = type-level
                                         # predicate ("NULL or a node of the library-owned list"), havocked by make()
         self.dead = tuple(dead)         # pointers never read before being assigned in the body: poisoned at the loop head
@@ -407,7 +409,13 @@ class CInterp:
 
     # ---- memory ------------------------------------------------------------
     def bounds(self, arr, idx, what):
+        if getattr(arr, "alive", True) is False:
+            self.oblige(f"{what} of {arr.name} after it was freed", "own", False)
+            raise PathEnd()
         if arr.n is None:
+            return
+        if not isinstance(arr.n, int):       # dynamically sized object: n is a term
+            self.oblige(f"{what} of {arr.name}[i] inside its dynamically sized allocation", "bounds", Z.ULT(bv64(idx), arr.n))
             return
         if isinstance(idx, int):
             ok = 0 <= idx < arr.n
@@ -497,6 +505,9 @@ class CInterp:
                 obj = self.lval(base).get(self)
             if not isinstance(obj, Mem) or obj.kind != "struct":
                 raise Unsupported(f"member access on {obj}")
+            if getattr(obj, "alive", True) is False:
+                self.oblige(f"access to {obj.name} after it was freed", "own", False)
+                raise PathEnd()
             name = n["name"]
             if name not in obj.fields:
                 obj.fields[name] = self.spec.field(self, obj, name, qt(n))
@@ -542,8 +553,11 @@ class CInterp:
         o = p.obj
         if o.kind == "arr" and o.n is not None:
             # one past the end is allowed for pointer arithmetic (C11 6.5.6p8)
-            g = (0 <= off <= o.n) if isinstance(off, int) else Z.ULE(off, bvc(o.n, 64))
-            self.oblige(f"pointer arithmetic stays within {o.name}[0..{o.n}]", "bounds", g)
+            if not isinstance(o.n, int):
+                g = Z.ULE(bv64(off), o.n)
+            else:
+                g = (0 <= off <= o.n) if isinstance(off, int) else Z.ULE(off, bvc(o.n, 64))
+            self.oblige(f"pointer arithmetic stays within {o.name}[0..{o.n if isinstance(o.n, int) else 'n'}]", "bounds", g)
         return PV(o, off)
 
     # ---- expressions: rvalues ----------------------------------------------
@@ -948,6 +962,9 @@ class CInterp:
                 cell.value = cut.cursors[cell.name][0](self)
         for nm, g in cut.inv(self):
             self.assume(g)
+        if cut.lemmas:
+            for g in cut.lemmas(self):
+                self.assume(g)
         if not self.feasible():
             raise Infeasible()
         head_ptr = {id(c): (c, c.value) for c in mods if isinstance(c.value, PV)}
@@ -969,6 +986,9 @@ class CInterp:
             return None
         if inc and inc.get("kind"):
             self.ev(inc)
+        if cut.lemmas:
+            for g in cut.lemmas(self):
+                self.assume(g)
         for nm, g in cut.inv(self):
             self.oblige(f"loop #{ordn} invariant preserved: {nm}", "inv", g, where)
         # soundness of the cut: everything the body changed is covered by the contract
@@ -1248,7 +1268,7 @@ def x_set_err(ret_null=True):
     def f(I, args, n):
         I.ghost["err"] = Z.BoolVal(True)
         I.ghost.setdefault("raised", []).append((n["inner"][0]["inner"][0]["referencedDecl"]["name"],
-                                                  args[0].obj.name if isinstance(args[0], PV) and args[0].obj else None,
+                                                  args[0].obj.name if args and isinstance(args[0], PV) and args[0].obj else None,
                                                   I.errno.get(I)))
         return PV(None) if ret_null else None
     return f
@@ -1486,6 +1506,86 @@ def x_new_object(label):
     return f
 
 
+def x_cpualloc(I, args, n):
+    """glibc __sched_cpualloc(count) = malloc(CPU_ALLOC_SIZE(count)): NULL or a cpu set of ceil(count/64) words"""
+    cnt = args[0]
+    if I.choose(2, "__sched_cpualloc fails/succeeds") == 0:
+        return PV(None)
+    k = I.ghost.get("allocs", 0)
+    I.ghost["allocs"] = k + 1
+    words = Z.UDiv(cnt.t + 63, bvc(64, 64))
+    m = Mem("struct", f"cpuset#{k}", ctype="cpu_set_t", fields={}, alive=True, dyn_words=words)
+    I.ghost.setdefault("heap", []).append(m)
+    return PV(m, 0)
+
+
+def x_cpufree(I, args, n):
+    o = args[0].obj
+    if o is None:
+        return None
+    if not getattr(o, "alive", False):
+        I.oblige(f"free({o.name}): the block is still allocated (no double free)", "own", False)
+        raise PathEnd()
+    I.oblige(f"free({o.name}): the block is still allocated (no double free)", "own", True)
+    o.alive = False
+    for c in o.fields.values():
+        if isinstance(c.value, Mem):
+            c.value.alive = False
+    return None
+
+
+def _cpuset_bits(I, o):
+    if "__bits" not in o.fields:
+        o.fields["__bits"] = I.spec.field(I, o, "__bits", "unsigned long[16]")
+    return o.fields["__bits"].value
+
+
+def x_getaffinity(I, args, n):
+    pid, size, mask = args
+    o = mask.obj
+    if o is None or o.kind != "struct" or not hasattr(o, "dyn_words"):
+        raise Unsupported("sched_getaffinity mask")
+    if not o.alive:
+        I.oblige("sched_getaffinity on a freed cpu set", "own", False)
+        raise PathEnd()
+    I.oblige("sched_getaffinity(cpusetsize) does not exceed the allocation", "bounds", Z.ULE(size.t, o.dyn_words * 8))
+    bits = _cpuset_bits(I, o)
+    I.n_fresh += 1
+    bits.content = Z.Array(f"kernel_mask!{I.n_fresh}", Z.BitVecSort(64), Z.BitVecSort(64))
+    I.ghost["sched_getaffinity.args"] = args
+    return sys_result(I, "sched_getaffinity", 32, (0, 0))
+
+
+def cpu_bit(bits, c):
+    """bit c of the mask words (c: BitVec 64)"""
+    return Z.Extract(0, 0, Z.LShR(Z.Select(bits.content, Z.UDiv(c, bvc(64, 64))), Z.URem(c, bvc(64, 64)))) == 1
+
+
+def x_cpucount(I, args, n):
+    """__sched_cpucount(setsize, set) = number of set bits below 8*setsize; ghost P(c) = number of set bits in [c, N)"""
+    size, mask = args
+    o = mask.obj
+    if o is None or o.kind != "struct" or not hasattr(o, "dyn_words"):
+        raise Unsupported("__sched_cpucount mask")
+    I.oblige("__sched_cpucount(setsize) does not exceed the allocation", "bounds", Z.ULE(size.t, o.dyn_words * 8))
+    bits = _cpuset_bits(I, o)
+    I.n_fresh += 1
+    P = Z.Function(f"P!{I.n_fresh}", Z.BitVecSort(64), Z.BitVecSort(32))
+    N = size.t * 8
+    I.ghost["popcount"] = {"P": P, "bits": bits, "N": N, "content": bits.content}
+    I.assume(Z.And(P(bvc(0, 64)) >= 0, Z.ULE(Z.ZeroExt(32, P(bvc(0, 64))), N)))
+    return IV(P(bvc(0, 64)), 32, True)
+
+
+def popcount_axioms(I, c):
+    """defining equations of the ghost P at index c (BitVec 64): P(c) = P(c+1) + bit(c) below N, 0 from N on"""
+    g = I.ghost["popcount"]
+    P, N, bits = g["P"], g["N"], g["bits"]
+    b = Z.If(cpu_bit(bits, c), bvc(1, 32), bvc(0, 32))
+    return [Z.Implies(Z.ULT(c, N), P(c) == P(c + 1) + b), Z.Implies(Z.UGE(c, N), P(c) == 0),
+            Z.Implies(Z.UGE(c + 1, N), P(c + 1) == 0), P(c) >= 0, P(c + 1) >= 0]
+
+
 def x_fd_result(name):
     def f(I, args, n):
         return sys_result(I, name, 32, (0, 1 << 20))
@@ -1575,6 +1675,8 @@ EXTERN = {
     "PyObject_IsTrue": x_is_true, "PyUnicode_FromString": x_from_string, "PyBool_FromLong": x_pylong_fromlong,
     "psutil_PyErr_SetFromOSErrnoWithSyscall": x_set_err(), "psutil_debug": x_noop,
     "getifaddrs": x_getifaddrs, "freeifaddrs": x_noop,
+    "__sched_cpualloc": x_cpualloc, "__sched_cpufree": x_cpufree, "sched_getaffinity": x_getaffinity,
+    "__sched_cpucount": x_cpucount,
 }
 
 
@@ -1583,6 +1685,10 @@ EXTERN = {
 # --------------------------------------------------------------------------------------------------------
 
 def default_field(I, obj, name, ty):
+    if name == "__bits" and hasattr(obj, "dyn_words"):
+        a = I.new_array(f"{obj.name}.__bits", "unsigned long", obj.dyn_words)
+        a.alive = obj.alive
+        return Cell(ty, a, name)
     k = tkind(ty)
     if k[0] == "ptr":
         if k[1] in ("char",):
@@ -1645,7 +1751,7 @@ def verify(spec):
     fn = tu[spec.func]
     body = [c for c in fn["inner"] if c["kind"] == "CompoundStmt"][0]
     params = [c for c in fn["inner"] if c["kind"] == "ParmVarDecl"]
-    prefix, paths, exits = [], 0, 0
+    prefix, paths, exits, infeasible, cut_ends = [], 0, 0, 0, 0
     records = []
     seen = {}
     t0 = time.time()
@@ -1669,6 +1775,8 @@ def verify(spec):
                 ret = None
             except ReturnExc as r:
                 ret = r.v
+            if I.solver.check() == Z.unsat:      # contradictory assumptions must not count as a verified exit
+                raise Infeasible()
             exits += 1
             x = Exit(I, ret)
             # generic exit obligations of a CPython entry point
@@ -1679,8 +1787,15 @@ def verify(spec):
                     I.oblige("an object is returned only with no exception set", "post", Z.Not(I.ghost["err"]), f"{spec.file}: return")
             for nm, g in spec.post(I, x):
                 I.oblige(nm, "post", g, f"{spec.file}: return")
+        except Infeasible:
+            infeasible += 1
+            I.obl = []
         except PathEnd:
-            pass
+            if I.solver.check() == Z.unsat:
+                infeasible += 1
+                I.obl = []
+            else:
+                cut_ends += 1
         for o in I.obl:
             records.append(o)
         prefix = next_prefix(I.trace)
@@ -1725,7 +1840,8 @@ def verify(spec):
             rec["model"] = model
         out.append(rec)
     # second back end: the conjunction of all proved goals, per path group, on cvc5
-    return {"function": spec.name, "paths": paths, "exits": exits, "obligations": out,
+    return {"function": spec.name, "paths": paths, "exits": exits, "infeasible_paths": infeasible,
+            "loop_body_ends": cut_ends, "obligations": out,
             "seconds": round(time.time() - t0, 2), "raw": records}
 
 
